@@ -420,3 +420,7 @@ def run(ctx, prog, res):
     ords = [flow.call_name(t).split("::")[-1] for x in prog.with_closures(ifd.id) for _, t in prog.fns[x].calls() if re.search(r"PartialOrd.*::(lt|le|gt|ge)$|Ord.*::cmp$", flow.call_name(t))]
     r2.check(not ords, {"fn": ifd.id, "bounds_compared_by": "equality"}, "C02.R2:immutable-full-day:equality",
              "TimeSpan::is_immutable_full_day compares a bound with an ordering (%s): only the exact span 00:00-24:00 has no spill into the next day" % ords, lib.where_of(ifd))
+
+    # R8 -------------------------------------------------------------------------------------
+    import c02_arms
+    c02_arms.run(ctx, prog, res, thorough=(ctx.tier == "thorough"))
